@@ -529,12 +529,17 @@ func lexQString(l *lexer) stateFn {
 func lexUnquoted(l *lexer) stateFn {
 	for {
 		switch c := l.peek(); c {
-		// TODO: Support detection of comment immediately following an
-		// unquoted string, likely through supporting two peeks instead
-		// of just one.
 		case ' ', '\r', '\n', '\t', ';', '"', '\'', '{', '}', eof:
 			l.emit(tUnquoted)
 			return lexGround
+		case '/':
+			// An unquoted string does not contain a comment sequence: a
+			// comment that follows it directly starts here.
+			if rest := l.input[l.pos:]; l.pos > l.start && (strings.HasPrefix(rest, "//") || strings.HasPrefix(rest, "/*")) {
+				l.emit(tUnquoted)
+				return lexGround
+			}
+			l.next()
 		default:
 			l.next()
 		}
